@@ -13,6 +13,24 @@ CLAIMED = {
     ),
 }
 
+CLAIMED.update({
+    "C19": (
+        "type-check of the js/wasm configuration + interface satisfaction + must-lockset / lock-pairing dataflow on wScreen + guard dominance of JS calls + constant table comparison",
+        "Structural necessary conditions decided on the GOOS=js GOARCH=wasm configuration: the package type-checks and *wScreen implements screenImpl; every wScreen method releases the mutex on every path and none re-acquires it (lifecycle calls cannot wedge on the lock); guarded state is touched only under the mutex and no blocking event post happens while it is held; mouse handlers are installed only under the matching flag tests; the JS drawCell call is dominated by the Dirty test and paired with the clean mark; the 16-colour palette equals the xterm values. The JavaScript half (webfiles/tcell.js), DOM key names and rendering are not decided.",
+        "Trusted: go/types and go/ssa for js/wasm, the xterm 16-colour reference values, the assumption that tcell.js implements the named entry points. No JavaScript tooling exists in the sandbox.",
+    ),
+    "C06": (
+        "stop-awareness analysis of WaitGroup-joined goroutines (SSA + call graph channel naming), lockset for blocking-under-lock, once/guard-liveness rules",
+        "Structural necessary condition for 'Fini/Suspend always return', decided over all paths: every blocking channel operation reachable from a goroutine that disengage / Tty.Stop joins has a receive alternative on a channel that is closed on every path before the join; nothing blocks on a channel or WaitGroup while the screen mutex is held; Fini is a sync.Once around the single closer of quit; the flag Show/Sync test to become inert is really set on the Fini path; PollEvent returns nil on the stop case. Scheduler fairness, timing bounds and the behaviour of external Tty implementations are not decided.",
+        "Assumes the documented Tty.Drain contract (a blocked Read returns after Drain) and a fair scheduler. Trusted: go/ssa, the channel-naming and stop-set computation in checker/stopaware.go.",
+    ),
+    "C05": (
+        "enumeration of every send on an event queue (SSA Select/Send), return-value provenance in PostEvent, who-may-send/receive on the chunk queue, allocation-site completeness of Event values",
+        "Structural necessary conditions: no lossy (non-blocking) send of input events anywhere in the library (only the resize notification and PostEvent may drop), blocking sends have only shutdown-signal alternatives; PostEvent returns nil exactly on the send case and ErrEventQFull exactly on the default case; the input pipeline is a single lane (one sender, one receiver, loops started once under the running flag with matching WaitGroup accounting, events sent in slice order); every constructed Event is stamped (no nil embedded time); ChannelEvents defers close of its channel. Exactly-once and ordering over schedules, HasPendingEvent and When() bounds are not decided.",
+        "Assumes FIFO channels. Trusted: go/ssa, rule templates in checker/c05.go.",
+    ),
+})
+
 # id -> reason for properties not (yet) claimed
 NOT_APPLICABLE = {
 }
